@@ -511,7 +511,7 @@ Print Assumptions c17_src_declines.
    Round 5 — std::path at the level of components (C17/PathModel.v: Path::components on unix, Path::parent = the path
    without its final component; compared with the real std::path on every produced path by the correspondence run).
    What the file-system sinks with a `.parent()` (create_dir_all) and the file creation receive. *)
-From RM Require Import C17.PathModel C17.PathProofs C17.IdModel C17.IdProofs C17.UrlFullSrc C17.ServerUrlProofs.
+From RM Require Import C17.PathModel C17.PathProofs C17.IdModel C17.IdProofs C17.UrlFullSrc C17.ServerUrlProofs C17.RedirectProofs.
 
 (* joining a safe relative path onto a non-empty root appends its components, none of them `..` *)
 Theorem c17_path_join_components : forall root rel, root <> [] -> safe_rel rel ->
@@ -648,6 +648,30 @@ Print Assumptions c17_server_url_unnormalised_refuted.
 Example c17_nonvacuous_server_url :
   no_qf [97;47;46;46;47;98;32;92;99] /\ server_base_path [97;47;46;46;47;98;32;92;99] = [47;98;37;50;48;47;99;47].   (* "a/../b \c" -> /b%20/c/ *)
 Proof. split; [repeat constructor; discriminate | vm_compute; reflexivity]. Qed.
+
+(* Round 5, second pass — names supplied by the SERVER.  In a code-info redirect (http.rs
+   individual_lookup_debug_info_by_code_info) the Location header provides the debug file name that locate_symbols then
+   looks up.  Whatever Location the server sends (any byte string; parse_location = strip one '/', rsplit('/'), nth(1), next()),
+   whatever debug id value it parses to: the lookup paths built from the server's name are genuinely relative, stay below
+   every directory root and are requested from the configured scheme and host below the base directory. *)
+Theorem c17_redirect_contained : forall code_file loc dfp idp d raw_code_id kind l base_scheme,
+  bytes code_file -> bytes loc -> parse_location loc = Some (dfp, idp) ->
+  g_lookup (module_of_ids code_file (Some dfp) (Some d) raw_code_id) kind = Some l ->
+  safe_rel (cache_rel l) /\ safe_rel (server_rel l) /\
+  (forall style root, is_prefix root (join style root (cache_rel l)) = true) /\
+  (forall base_path, exists r, g_request_target base_scheme base_path (server_rel l) = JSame r /\
+                               is_prefix (base_dir base_path) r = true).
+Proof. exact redirect_contained. Qed.
+Print Assumptions c17_redirect_contained.
+
+(* non-vacuity: which pieces of a Location become the debug file / debug id ("/a/../5A1/x.sym" -> "..", declined later by
+   safe_leafname; "//e/0/x" -> "e"; "..\..\w/0/x" -> the whole "..\..\w", whose leaf is "w"; "0/x" -> nothing) *)
+Example c17_nonvacuous_redirect :
+  parse_location [47;97;47;46;46;47;53;65;49;47;120;46;115;121;109] = Some ([46;46], [53;65;49]) /\
+  parse_location [47;47;101;47;48;47;120] = Some ([101], [48]) /\
+  parse_location [46;46;92;46;46;92;119;47;48;47;120] = Some ([46;46;92;46;46;92;119], [48]) /\
+  parse_location [48;47;120] = None.
+Proof. exact parse_location_examples. Qed.
 
 (* Windows rules at component level (model-only: std's Windows path code cannot be executed on this machine): pushing a
    safe relative path onto a root that is not a bare drive `X:` keeps the root's components in front and adds no `..` *)
